@@ -202,4 +202,58 @@ theorem hmac_key_zero_pad (key msg : Bytes) (h : key.length < 64) :
     rfl
   simp only [Sha256.hmac, h1, h2, if_false, hpad]
 
+/-- HMAC depends on its key only through the 64-byte block -/
+theorem hmac_of_block (a b msg : Bytes) (h : hmacKeyBlock a = hmacKeyBlock b) :
+    Sha256.hmac a msg = Sha256.hmac b msg := by
+  unfold hmacKeyBlock at h
+  unfold Sha256.hmac
+  dsimp only at h ⊢
+  rw [h]
+
+/-- keys of one length not above the block size have different blocks -/
+theorem hmacKeyBlock_inj_same_len (a b : Bytes) (hl : a.length = b.length) (h64 : a.length ≤ 64)
+    (h : hmacKeyBlock a = hmacKeyBlock b) : a = b := by
+  have ha : ¬ a.length > 64 := by omega
+  have hb : ¬ b.length > 64 := by omega
+  simp only [hmacKeyBlock, ha, hb, if_false] at h
+  exact (List.append_inj h hl).1
+
+theorem hmacKeyBlock_short (a : Bytes) (h64 : a.length ≤ 64) :
+    hmacKeyBlock a = a ++ List.replicate (64 - a.length) 0 := by
+  have ha : ¬ a.length > 64 := by omega
+  simp only [hmacKeyBlock, ha, if_false]
+
+/-! ## `u64` little-endian bytes, `ChannelId` constructors -/
+
+theorem le64_eq (n : Nat) : le64 n =
+    [UInt8.ofNat (n % 256), UInt8.ofNat ((n >>> 8) % 256), UInt8.ofNat ((n >>> 16) % 256),
+     UInt8.ofNat ((n >>> 24) % 256), UInt8.ofNat ((n >>> 32) % 256), UInt8.ofNat ((n >>> 40) % 256),
+     UInt8.ofNat ((n >>> 48) % 256), UInt8.ofNat ((n >>> 56) % 256)] := by
+  have : List.range 8 = [0, 1, 2, 3, 4, 5, 6, 7] := by decide
+  simp [le64, this]
+
+theorem le64_length (n : Nat) : (le64 n).length = 8 := by simp [le64]
+
+theorem le64Val_le64 (n : Nat) (h : n < 2 ^ 64) : le64Val (le64 n) = n := by
+  have hb : ∀ x : Nat, (UInt8.ofNat (x % 256)).toNat = x % 256 := by
+    intro x
+    simp [UInt8.toNat_ofNat']
+  rw [le64_eq]
+  simp only [le64Val, List.foldr, hb, Nat.shiftRight_eq_div_pow]
+  omega
+
+theorem le64_inj (a b : Nat) (ha : a < 2 ^ 64) (hb : b < 2 ^ 64) (h : le64 a = le64 b) : a = b := by
+  rw [← le64Val_le64 a ha, ← le64Val_le64 b hb, h]
+
+theorem le64_zero : le64 0 = List.replicate 8 0 := by decide
+
+theorem chanIdOid_of_suffix (pre : Bytes) (o : Nat) (ho : o < 2 ^ 64) :
+    chanIdOid (pre ++ le64 o) = some o := by
+  have hlen : (pre ++ le64 o).length = pre.length + 8 := by simp [le64_length]
+  have h8 : ¬ (pre ++ le64 o).length < 8 := by omega
+  have hd : (pre ++ le64 o).drop ((pre ++ le64 o).length - 8) = le64 o := by
+    rw [hlen, Nat.add_sub_cancel]
+    exact List.drop_left
+  simp only [chanIdOid, h8, if_false, hd, le64Val_le64 o ho]
+
 end VlsModel.Keys
